@@ -50,6 +50,36 @@ def nlp_diff(p):
         return dict(status="confirmed", failing_input=out["instance"], observed="specification transcribed silently (no exception)",
                     expected="rejected: " + reject, **out)
     opti = spec.opti
+    if "handles-are-distinct" in p.get("obligation", ""):
+        # every handle entry depends on exactly one solver variable, and no two handles share one
+        N, M = spec.N, spec.M
+        groups = []
+        if spec.method in ("MS", "DC"):
+            groups += [("X[%d]" % k, ca.MX(meth.X[k])) for k in range(N + 1)]
+        else:
+            groups.append(("X[0]", ca.MX(meth.X[0])))
+        groups += [("U[%d]" % k, ca.MX(meth.U[k])) for k in range(N) if ca.MX(meth.U[k]).numel()]
+        if spec.method == "DC":
+            for k in range(N):
+                for i in range(M):
+                    Xc, Zc = ca.MX(meth.Xc[k][i]), ca.MX(meth.Zc[k][i])
+                    groups.append(("Xc[%d][%d] helper states" % (k, i), Xc[:, 1:]))
+                    if i > 0:
+                        groups.append(("Xc[%d][%d] start state" % (k, i), Xc[:, 0]))
+                    if Zc.numel():
+                        groups.append(("Zc[%d][%d]" % (k, i), Zc))
+        owner = {}
+        for label, m in groups:
+            J = np.array(ca.DM(ca.jacobian(ca.vec(m), opti.x).sparsity(), 1))
+            for r in range(J.shape[0]):
+                cols = np.nonzero(J[r])[0]
+                if len(cols) != 1:
+                    return dict(status="confirmed", failing_input=out["instance"], observed="%s entry %d depends on %d solver variables" % (label, r, len(cols)), **out)
+                if cols[0] in owner:
+                    return dict(status="confirmed", failing_input=out["instance"], observed="%s and %s are the same solver variable (column %d of opti.x)" % (owner[cols[0]], label, cols[0]),
+                                expected="every collocation / node quantity has its own decision variable", **out)
+                owner[cols[0]] = label
+        return dict(status="not-reproduced", detail="all %d handle entries are distinct solver variables" % len(owner), **out)
     if p.get("parts") and "init" in p["parts"]:
         from contracts.oracle import expected_initial
         bad = []
